@@ -35,6 +35,13 @@ type ownField struct {
 
 func typeText(fset *token.FileSet, e ast.Expr) string { return nodeText(fset, e) }
 
+// lockedByProtocol: functions that run while a mutex is held although they do not take it themselves.
+//   FlowNodeMapping.RegisterElementToFlowNode — called only between NewLockedFlowNodeMapping (which returns with the
+//   write lock taken) and Finalize (which releases it): the mapping is frozen before any reader can pass RLock.
+var lockedByProtocol = map[string]string{
+	"FlowNodeMapping.RegisterElementToFlowNode": "lock",
+}
+
 func selfSyncType(t string) bool {
 	t = strings.TrimPrefix(t, "*")
 	for _, p := range []string{"sync.", "atomic.", "chan ", "<-chan ", "chan<- "} {
@@ -46,7 +53,11 @@ func selfSyncType(t string) bool {
 }
 
 func ownershipCensus(c *factsCtx) (fields []ownField, accs []ownAccess) {
-	files, _ := filepath.Glob(filepath.Join(c.repo, "*.go"))
+	var files []string
+	for _, pat := range []string{"*.go", "pkg/tracing/*.go", "pkg/data/*.go", "pkg/event/*.go"} {
+		m, _ := filepath.Glob(filepath.Join(c.repo, pat))
+		files = append(files, m...)
+	}
 	sort.Strings(files)
 	var parsed []*ast.File
 	for _, p := range files {
@@ -103,7 +114,17 @@ func ownershipCensus(c *factsCtx) (fields []ownField, accs []ownAccess) {
 	}
 	var owned []string
 	for tn := range structs {
-		if _, ok := methods[tn]["run"]; ok {
+		_, hasRun := methods[tn]["run"]
+		hasMutex := false
+		for _, fl := range structs[tn] {
+			t := typeText(c.fset, fl.Type)
+			if t == "sync.Mutex" || t == "sync.RWMutex" {
+				hasMutex = true
+			}
+		}
+		// goroutine-owning types, and types that guard their state with a mutex of their own (no goroutine: every
+		// method is "foreign", so every mutable field needs the common lock)
+		if hasRun || hasMutex {
 			owned = append(owned, tn)
 		}
 	}
@@ -145,7 +166,10 @@ func ownershipCensus(c *factsCtx) (fields []ownField, accs []ownAccess) {
 			}
 			walk(m.decl.Body, false)
 		}
-		owner := map[string]bool{"run": true}
+		owner := map[string]bool{}
+		if _, ok := methods[tn]["run"]; ok {
+			owner["run"] = true
+		}
 		for changed := true; changed; {
 			changed = false
 			for mn := range methods[tn] {
@@ -205,6 +229,9 @@ func ownershipCensus(c *factsCtx) (fields []ownField, accs []ownAccess) {
 			lock := ""
 			if recvName != "" {
 				lock = lockOf(body, recvName)
+			}
+			if l, ok := lockedByProtocol[fn]; ok {
+				lock = l
 			}
 			var walk func(n ast.Node, cls string)
 			walk = func(n ast.Node, cls string) {
